@@ -583,6 +583,14 @@ fn gen_cell(ctx: &Ctx, case: u64) -> CellPlan {
                     s.empty_frames = t.empty_frames;
                     s.end = t.end.clone();
                 }
+                // no chunk extensions behind an H2 connection: kawa refuses them, the stream gets a
+                // 502 default answer, and such an answer (`Connection: close` template) makes sozu
+                // drain the whole H2 connection as documented: every stream opened after it is
+                // refused, and the DATA already in flight for those counts towards
+                // ENHANCE_YOUR_CALM. H1 connections keep exercising the extensions.
+                if let RespFraming::Chunked { ext, .. } = &mut x.resp_framing {
+                    *ext = false;
+                }
                 if x.mode == Mode::Early && !early_conn {
                     x.mode = Mode::Normal;
                 } else if early_conn && x.req_size > 0 && x.resp_size > 0 {
